@@ -22,6 +22,11 @@ type chanState struct {
 	recvVCs []VC // vc of k-th receive (for buffered send edges)
 }
 
+// Integer is the constraint for channel sizes.
+type Integer interface {
+	~int | ~int8 | ~int16 | ~int32 | ~int64 | ~uint | ~uint8 | ~uint16 | ~uint32 | ~uint64 | ~uintptr
+}
+
 func chanKey(ch any) uintptr {
 	v := reflect.ValueOf(ch)
 	if !v.IsValid() || v.IsNil() {
@@ -31,10 +36,10 @@ func chanKey(ch any) uintptr {
 }
 
 // MakeChan creates a channel; in controlled mode it is registered as managed.
-func MakeChan[T any](n int) chan T {
+func MakeChan[T any, N Integer](n N) chan T {
 	ch := make(chan T, n)
 	if e := cur(); e != nil {
-		e.register(ch, n, "")
+		e.register(ch, int(n), "")
 	}
 	return ch
 }
@@ -540,3 +545,6 @@ func realSelect(hasDefault bool, cases []Selectable) int {
 	}
 	return i
 }
+
+// Cap is cap(ch).
+func Cap[T any](ch chan T) int { return cap(ch) }
